@@ -156,11 +156,15 @@ def check_wire(ctx, labels, origin):
     full = tuple(labels) if absolute else tuple(labels) + tuple(origin)
     try:
         if not absolute and not R.fits(full):
-            try:
-                n.to_wire(origin=mk(origin))
-            except dns.exception.DNSException:
-                pass
-            # an over-long derelativized wire form is only a violation if it can be produced via a Name
+            # name + origin is over 255 octets: there is no wire form; every spelling of the conversion raises (none hands back
+            # more than 255 octets)
+            ctx.count("mon.wire_overlong_with_origin")
+            for how, fn in (("bytes", lambda: n.to_wire(origin=mk(origin))), ("file", lambda: n.to_wire(io.BytesIO(), None, mk(origin))), ("digestable", lambda: n.to_digestable(mk(origin)))):
+                try:
+                    out = fn()
+                    ctx.violation(f"wire-form-over-255-octets-returned:{how}", f"labels={labels!r} origin={origin!r} len={len(out) if out is not None else 'written'}", case)
+                except dns.exception.DNSException:
+                    pass
             return
         w = n.to_wire(origin=mk(origin))
         rw = R.to_wire(tuple(labels), tuple(origin))
